@@ -35,7 +35,7 @@ class C15(Check):
         "HiGHS / sympy.solve are oracles (certificate-checked exact simplex; exact Gauss-Jordan)",
     ]
     assumptions = ["floats denote exact rationals; numeric reading of the property"]
-    min_branches = {"ok": 150, "overlap": 30, "unconnected": 15, "merge": 40}
+    min_branches = {"ok": 150, "overlap": 30, "unconnected": 15, "merge": 40, "near-duplicate": 15}
 
     def generate(self, rng, n, tier):
         out = []
@@ -48,11 +48,32 @@ class C15(Check):
                 if cand:
                     t = rng.choice(cand)
                     c2["g"].append(dict(c={v: x * 2.0 for v, x in t["c"].items()}, k=t["k"] * 2.0 + rng.choice([0.0, 1.0])))
-            if rng.random() < 0.2:
-                out.append({"op": "merge", "c1": c1, "c2": c2, "w": w})
-                continue
+            is_merge = rng.random() < 0.2
             outs = c1["outs"] + [v for v in c2["outs"] if v not in c1["outs"]]
             keep = [v for v in outs if rng.random() < 0.3]
+            if rng.random() < 0.25:
+                # nearly identical interface-level terms: same variables and constant, one coefficient 6e-6 (relative) away.  Both are
+                # guarantees the result must keep: the half-spaces differ by more than the reading's tolerance inside the box.
+                shared = set(c1["ins"] + c1["outs"]) & set(c2["ins"] + c2["outs"])
+                if not is_merge:
+                    internal = ((set(c1["outs"]) & set(c2["ins"])) | (set(c2["outs"]) & set(c1["ins"]))) - set(keep)
+                    if len(shared - internal) >= 2 or rng.random() < 0.7:
+                        shared = shared - internal
+                cand = [t for t in c1["g"] if set(t["c"]) <= shared and len(t["c"]) >= 2 and max(abs(x) for x in t["c"].values()) >= 1.0 and abs(t["k"]) <= 20]
+                if not cand and len(shared) >= 2:
+                    v1, v2 = rng.sample(sorted(shared), 2)
+                    t = dict(c={v1: float(rng.choice([1, 2, 3])) * rng.choice([-1.0, 1.0]), v2: float(rng.choice([1, 2])) * rng.choice([-1.0, 1.0])}, k=float(rng.randint(-3, 6)))
+                    c1["g"].append(t)
+                    cand = [t]
+                if cand:
+                    t = rng.choice(cand)
+                    v0 = max(t["c"], key=lambda v: abs(t["c"][v]))
+                    nc = dict(t["c"])
+                    nc[v0] = nc[v0] * (1.0 + rng.choice([-1.0, 1.0]) * 6e-6)
+                    c2["g"].append(dict(c=nc, k=t["k"], near=True))
+            if is_merge:
+                out.append({"op": "merge", "c1": c1, "c2": c2, "w": w})
+                continue
             out.append({"op": "compose", "c1": c1, "c2": c2, "keep": keep, "simplify": rng.random() < 0.6, "order": rand_order(rng), "w": w})
         return out
 
@@ -97,6 +118,8 @@ class C15(Check):
         k1 = {G.mk_key(t) for t in c1["g"]}
         if any(G.mk_key(t) in k1 for t in c2["g"]):
             b.append("overlap")
+        if any(t.get("near") for t in c2["g"]):
+            b.append("near-duplicate")
         if case["op"] == "merge":
             b.append("merge")
         elif not ((set(c1["outs"]) & set(c2["ins"])) | (set(c2["outs"]) & set(c1["ins"]))):
